@@ -31,7 +31,7 @@ Record svc := mkSvc {
   node_port : option N;
   metrics_port : option N;
   rpc_port : N;               (* rpc_socket_addr.port() *)
-  peers : bool;               (* connected_peers.is_some() *)
+  peers : option (list N);    (* connected_peers: None, Some [] and Some [ids] are three different states *)
   listen : bool;              (* listen_addr.is_some() *)
   peer_id : bool;             (* peer_id.is_some() *)
   first : bool                (* peers_args.first *)
@@ -39,18 +39,21 @@ Record svc := mkSvc {
 
 Definition sname (n : N) : string := ("antnode" ++ dec n)%string.
 
-Definition set_st (s : svc) (x : status) (p : option N) (pe : bool) : svc :=
+Definition set_st (s : svc) (x : status) (p : option N) (pe : option (list N)) : svc :=
   mkSvc (number s) x p (version s) (node_port s) (metrics_port s) (rpc_port s) pe (listen s) (peer_id s) (first s).
 
 (* NodeService::on_stop: pid = None, status = Stopped, connected_peers = None *)
-Definition on_stop (s : svc) : svc := set_st s Stopped None false.
+Definition on_stop (s : svc) : svc := set_st s Stopped None None.
 (* NodeService::on_remove: only the status changes *)
 Definition on_remove (s : svc) : svc := set_st s Removed (pid s) (peers s).
 (* NodeService::on_start(pid, full_refresh = false): previously assigned peers / peer id kept *)
 Definition on_start_partial (p : N) (s : svc) : svc := set_st s Running (Some p) (peers s).
 (* the assignments at the end of on_start(pid, full_refresh = true) *)
-Definition on_start_set (p port : N) (s : svc) : svc :=
-  mkSvc (number s) Running (Some p) (version s) (Some port) (metrics_port s) (rpc_port s) true true true (first s).
+Definition on_start_set (p port : N) (conn : list N) (s : svc) : svc :=
+  mkSvc (number s) Running (Some p) (version s) (Some port) (metrics_port s) (rpc_port s) (Some conn) true true (first s).
+(* the peers the node of service n reports as connected: none for antnode1 (a just-launched / genesis node),
+   one for antnode2, two for antnode3, ... (ids of the three peers the simulated network has) *)
+Definition rpc_peers (n : N) : list N := firstn (N.to_nat ((n - 1) mod 3)) [1; 2; 3].
 Definition set_version (s : svc) (v : N) : svc :=
   mkSvc (number s) (st s) (pid s) v (node_port s) (metrics_port s) (rpc_port s) (peers s) (listen s) (peer_id s) (first s).
 
@@ -193,7 +196,7 @@ Definition on_start_full (F : list N) (dyn : bool) (p : N) (s : svc) (e : env) :
   if negb ok2 then (C_CONTROL, s, e2) else
   let '(ok3, e3) := call_rpc F K_RPC_NETWORK_INFO n e2 in
   if negb ok3 then (C_CONTROL, s, e3) else
-  (C_OK, on_start_set p (listen_port e3 n) s, e3).
+  (C_OK, on_start_set p (listen_port e3 n) (rpc_peers n) s, e3).
 
 (* ---------------------------------------------------------------- ServiceManager::start *)
 Definition mgr_start (F : list N) (dyn : bool) (s : svc) (e : env) : N * svc * env :=
@@ -333,7 +336,7 @@ Definition incr (o : option N) : option N := option_map (fun p => p + 1) o.
 Definition max_number (rg : list svc) : N := fold_right (fun s m => N.max (number s) m) 0 rg.
 
 Definition new_svc (n : N) (np mp : option N) (rpc : N) (fst_ : bool) : svc :=
-  mkSvc n Added None 1 np mp rpc false false false fst_.
+  mkSvc n Added None 1 np mp rpc None false false fst_.
 
 Fixpoint add_loop (F : list N) (o : addopts) (fuel : nat) (n : N) (np mp rp : option N)
          (rg : list svc) (e : env) (added : list N) (failed : bool) : N * list N * list svc * env :=
@@ -460,7 +463,7 @@ Definition expand (cs : list cmd) : list op := flat_map expand1 cs.
 
 (* ---------------------------------------------------------------- registry file: save / load *)
 (* the JSON object written per node, as (field, value) pairs; Option fields are null or a value *)
-Inductive jv := JNull | JNum (n : N) | JBool (b : bool) | JStr (s : string).
+Inductive jv := JNull | JNum (n : N) | JBool (b : bool) | JStr (s : string) | JArr (l : list N).
 
 Definition status_str (x : status) : string :=
   match x with Added => "Added" | Running => "Running" | Stopped => "Stopped" | Removed => "Removed" end.
@@ -469,11 +472,13 @@ Definition status_of_str (s : string) : option status :=
   else if String.eqb s "Stopped" then Some Stopped else if String.eqb s "Removed" then Some Removed else None.
 
 Definition jopt (o : option N) : jv := match o with Some n => JNum n | None => JNull end.
+(* serialize_connected_peers: Some(peers) => serialize_some(list of ids), None => serialize_none *)
+Definition jconn (o : option (list N)) : jv := match o with Some l => JArr l | None => JNull end.
 
 Definition save_svc (s : svc) : list (string * jv) :=
   [("number", JNum (number s)); ("service_name", JStr (sname (number s))); ("status", JStr (status_str (st s)));
    ("pid", jopt (pid s)); ("version", JNum (version s)); ("node_port", jopt (node_port s));
-   ("metrics_port", jopt (metrics_port s)); ("rpc_port", JNum (rpc_port s)); ("connected_peers", JBool (peers s));
+   ("metrics_port", jopt (metrics_port s)); ("rpc_port", JNum (rpc_port s)); ("connected_peers", jconn (peers s));
    ("listen_addr", JBool (listen s)); ("peer_id", JBool (peer_id s)); ("first", JBool (first s))]%string.
 
 Fixpoint jget (k : string) (l : list (string * jv)) : option jv :=
@@ -482,12 +487,14 @@ Fixpoint jget (k : string) (l : list (string * jv)) : option jv :=
 Definition get_num l k := match jget k l with Some (JNum n) => Some n | _ => None end.
 Definition get_opt l k := match jget k l with Some (JNum n) => Some (Some n) | Some JNull => Some None | _ => None end.
 Definition get_bool l k := match jget k l with Some (JBool b) => Some b | _ => None end.
+(* deserialize_connected_peers: Option<Vec<String>> -> Some(ids) / None *)
+Definition get_conn l k := match jget k l with Some (JArr x) => Some (Some x) | Some JNull => Some None | _ => None end.
 Definition get_status l k := match jget k l with Some (JStr s) => status_of_str s | _ => None end.
 
 Definition load_svc (l : list (string * jv)) : option svc :=
   match get_num l "number", get_status l "status", get_opt l "pid", get_num l "version",
         get_opt l "node_port", get_opt l "metrics_port", get_num l "rpc_port",
-        get_bool l "connected_peers", get_bool l "listen_addr", get_bool l "peer_id", get_bool l "first",
+        get_conn l "connected_peers", get_bool l "listen_addr", get_bool l "peer_id", get_bool l "first",
         jget "service_name" l with
   | Some n, Some x, Some p, Some v, Some np, Some mp, Some rp, Some pe, Some li, Some pi, Some fi, Some (JStr nm) =>
       if String.eqb nm (sname n) then Some (mkSvc n x p v np mp rp pe li pi fi) else None
@@ -508,7 +515,7 @@ Definition status_code (x : status) : N := match x with Added => 0 | Running => 
 
 Definition svc_view (e : env) (s : svc) : list N :=
   [number s; status_code (st s); o2n (pid s); version s; o2n (node_port s); o2n (metrics_port s); rpc_port s;
-   b2n (peers s); b2n (listen s); b2n (peer_id s); b2n (first s); b2n (has_dir (number s) e)].
+   o2n (option_map (fun l => N.of_nat (List.length l)) (peers s)); b2n (listen s); b2n (peer_id s); b2n (first s); b2n (has_dir (number s) e)].
 
 Fixpoint insN (x : N * N) (l : list (N * N)) : list (N * N) :=
   match l with
